@@ -39,6 +39,9 @@ func init() {
 	}
 }
 
+// maxRecordBytes is DefaultMaxRecordSize (regenerated into Gen.defaultMaxRecordSize and pinned by Props.C15)
+const maxRecordBytes = 1 << 20
+
 type c15Rec struct {
 	Payload []byte `json:"payload"`         // the record's bytes (one RPC message, possibly nonsense)
 	Frags   []int  `json:"frags,omitempty"` // split points for multi-fragment framing
@@ -195,7 +198,7 @@ func judgeC15(r *Result, env *c15Env, streams []c15Stream) {
 		whole := true
 		line := "loop serve"
 		for _, q := range s.Recs {
-			if q.Raw != nil || len(q.Payload) == 0 {
+			if q.Raw != nil || len(q.Payload) == 0 || len(q.Payload) > maxRecordBytes {
 				whole = false
 				break
 			}
@@ -240,7 +243,9 @@ func judgeC15(r *Result, env *c15Env, streams []c15Stream) {
 		sent := 0
 		for j, q := range s.Recs {
 			sent += len(q.Payload) + len(q.Raw) + 8
-			if q.Raw != nil || !strings.HasPrefix(model[i][j], "some") {
+			if q.Raw != nil || !strings.HasPrefix(model[i][j], "some") || len(q.Payload) > maxRecordBytes {
+				// not a decodable call, or a record larger than DefaultMaxRecordSize (however it is fragmented):
+				// it must not be reassembled and answered
 				undecodableAt = j
 				break
 			}
@@ -312,7 +317,7 @@ func judgeC15(r *Result, env *c15Env, streams []c15Stream) {
 func checkC15(r *Result, rng *rand.Rand, thorough bool) {
 	env := newC15Env()
 	defer env.close()
-	r.Rule = "streams over a real record-marking TCP connection: valid NFS/MOUNT calls for every procedure, each mutated (byte flips, field overwrites with 0/0xffffffff/0x7fffffff), truncated at every point, reframed into fragments (including empty ones), interleaved with random bytes, records with huge declared fragment/opaque/auth lengths; decodability decided by the Lean model of DecodeRPCCall; reply XID sequence, connection closure, allocation per stream and a probe client checked"
+	r.Rule = "streams over a real record-marking TCP connection: valid NFS/MOUNT calls for every procedure, each mutated (byte flips, field overwrites with 0/0xffffffff/0x7fffffff), truncated at every point, reframed into fragments (including empty ones), interleaved with random bytes, records with huge declared fragment/opaque/auth lengths, records over the 1 MiB limit assembled from small fragments; decodability decided by the Lean model of DecodeRPCCall; reply XID sequence, connection closure, allocation per stream and a probe client checked"
 	xid := uint32(1000)
 	cred := encAuthSys(0, []byte("c"), 0, 0, nil)
 	mk := func(prog, vers, proc uint32, args []byte) c15Rec {
@@ -403,6 +408,22 @@ func checkC15(r *Result, rng *rand.Rand, thorough bool) {
 		xid++
 		pl3 := cat(encCallHdr(xid, 2, progNFS, 3, 7, 1, cred, 0, nil), fh(root+2), u64(0), u32(l), u32(2), u32(l), randBytes(rng, 16))
 		streams = append(streams, c15Stream{Recs: []c15Rec{valid()[0], {Payload: pl3, Xid: xid}, valid()[2]}})
+	}
+	// 4b. records over the 1 MiB record limit built from fragments that are each well below it: a valid NULL call
+	// (trailing argument bytes are ignored by NULL, so the record would be answered if it were accepted) padded
+	// to 1.25 MiB / 3 MiB and sent in 3 / 7 fragments, with valid calls before and after
+	for _, total := range []int{1<<20 + 1, 1<<20 + 1<<18, 3 << 20} {
+		xid++
+		pl := cat(encCallHdr(xid, 2, progNFS, 3, 0, 1, cred, 0, nil), make([]byte, total-40-len(cred)))
+		nf := 3
+		if total > 2<<20 {
+			nf = 7
+		}
+		var fr []int
+		for k := 1; k < nf; k++ {
+			fr = append(fr, k*len(pl)/nf)
+		}
+		streams = append(streams, c15Stream{Recs: []c15Rec{valid()[0], {Payload: pl, Frags: fr, Xid: xid}, valid()[2]}})
 	}
 	// 5. pure noise
 	for i := 0; i < nmut/6; i++ {
